@@ -1,63 +1,22 @@
-// Copyright 2013 The Go Authors. All rights reserved.
-// Use of this source code is governed by a BSD-style
-// license that can be found in the LICENSE file.
-
-// Package ssa/interp defines an interpreter for the SSA
-// representation of Go programs.
+// Package interp is a symbolic executor for Go SSA, derived from
+// golang.org/x/tools/go/ssa/interp (BSD license, The Go Authors).
 //
-// This interpreter is provided as an adjunct for testing the SSA
-// construction algorithm.  Its purpose is to provide a minimal
-// metacircular implementation of the dynamic semantics of each SSA
-// instruction.  It is not, and will never be, a production-quality Go
-// interpreter.
-//
-// The following is a partial list of Go features that are currently
-// unsupported or incomplete in the interpreter.
-//
-// * Unsafe operations, including all uses of unsafe.Pointer, are
-// impossible to support given the "boxed" value representation we
-// have chosen.
-//
-// * The reflect package is only partially implemented.
-//
-// * The "testing" package is no longer supported because it
-// depends on low-level details that change too often.
-//
-// * "sync/atomic" operations are not atomic due to the "boxed" value
-// representation: it is not possible to read, modify and write an
-// interface value atomically. As a consequence, Mutexes are currently
-// broken.
-//
-// * recover is only partially implemented.  Also, the interpreter
-// makes no attempt to distinguish target panics from interpreter
-// crashes.
-//
-// * the sizes of the int, uint and uintptr types in the target
-// program are assumed to be the same as those of the interpreter
-// itself.
-//
-// * all values occupy space, even those of types defined by the spec
-// to have zero size, e.g. struct{}.  This can cause asymptotic
-// performance degradation.
-//
-// * os.Exit is implemented using panic, causing deferred functions to
-// run.
-package interp // import "golang.org/x/tools/go/ssa/interp"
+// Differences from the original: scalar values may be SMT terms (sym), strings may have symbolic
+// bytes (symstr), branches on symbolic conditions fork (decision tree explored by re-execution),
+// goroutines/channels/select/atomics are modelled and scheduled by an exploring scheduler,
+// maps are insertion-ordered association lists, reflect is modelled over go/types.
+package interp
 
 import (
 	"fmt"
 	"go/token"
 	"go/types"
-	"log"
 	"os"
-	"reflect"
 	"runtime"
 	"slices"
-	"sync/atomic"
-	_ "unsafe"
+	"strings"
 
 	"golang.org/x/tools/go/ssa"
-	"golang.org/x/tools/internal/typeparams"
 )
 
 type continuation int
@@ -80,7 +39,6 @@ type methodSet map[string]*ssa.Function
 
 // State shared between all interpreted goroutines.
 type interpreter struct {
-	osArgs             []value                // the value of os.Args
 	prog               *ssa.Program           // the SSA program
 	globals            map[*ssa.Global]*value // addresses of global variables (immutable)
 	mode               Mode                   // interpreter options
@@ -89,7 +47,18 @@ type interpreter struct {
 	rtypeMethods       methodSet              // the method set of rtype, which implements the reflect.Type interface.
 	runtimeErrorString types.Type             // the runtime.errorString type
 	sizes              types.Sizes            // the effective type-sizing function
-	goroutines         int32                  // atomically updated
+	stubs              map[string]*ssa.Function
+	undo               []undoEntry
+	logging            bool
+	epoch              int
+}
+
+type undoEntry struct {
+	addr *value
+	old  value
+	m    *smap
+	keys []value
+	vals []value
 }
 
 type deferred struct {
@@ -111,6 +80,15 @@ type frame struct {
 	panicking        bool
 	panic            interface{}
 	phitemps         []value // temporaries for parallel phi assignment
+	loopCount        map[*ssa.BasicBlock]int
+	depth            int
+}
+
+func mustDeref(t types.Type) types.Type {
+	if p, ok := t.Underlying().(*types.Pointer); ok {
+		return p.Elem()
+	}
+	panic(fmt.Sprintf("mustDeref: %s is not a pointer", t))
 }
 
 func (fr *frame) get(key ssa.Value) value {
@@ -134,19 +112,29 @@ func (fr *frame) get(key ssa.Value) value {
 	panic(fmt.Sprintf("get: no value for %T: %v", key, key.Name()))
 }
 
+// enginePanic reports whether a recovered value is an engine-level control transfer that
+// target-level defer/recover must not observe.
+func enginePanic(r interface{}) bool {
+	switch r.(type) {
+	case pathEnd, abortPath, goroutineKilled:
+		return true
+	}
+	return false
+}
+
 // runDefer runs a deferred call d.
 // It always returns normally, but may set or clear fr.panic.
 func (fr *frame) runDefer(d *deferred) {
-	if fr.i.mode&EnableTracing != 0 {
-		fmt.Fprintf(os.Stderr, "%s: invoking deferred function call\n",
-			fr.i.prog.Fset.Position(d.instr.Pos()))
-	}
 	var ok bool
 	defer func() {
 		if !ok {
 			// Deferred call created a new state of panic.
+			r := recover()
+			if enginePanic(r) {
+				panic(r)
+			}
 			fr.panicking = true
-			fr.panic = recover()
+			fr.panic = r
 		}
 	}()
 	call(fr.i, fr, d.instr.Pos(), d.fn, d.args)
@@ -154,16 +142,6 @@ func (fr *frame) runDefer(d *deferred) {
 }
 
 // runDefers executes fr's deferred function calls in LIFO order.
-//
-// On entry, fr.panicking indicates a state of panic; if
-// true, fr.panic contains the panic value.
-//
-// On completion, if a deferred call started a panic, or if no
-// deferred call recovered from a previous state of panic, then
-// runDefers itself panics after the last deferred call has run.
-//
-// If there was no initial state of panic, or it was recovered from,
-// runDefers returns normally.
 func (fr *frame) runDefers() {
 	for d := fr.defers; d != nil; d = d.tail {
 		fr.runDefer(d)
@@ -185,6 +163,57 @@ func lookupMethod(i *interpreter, typ types.Type, meth *types.Func) *ssa.Functio
 	}
 	return i.prog.LookupMethod(typ, meth.Pkg(), meth.Name())
 }
+
+func (fr *frame) site(pos token.Pos) string {
+	if pos == token.NoPos {
+		return fr.fn.String()
+	}
+	p := fr.i.prog.Fset.Position(pos)
+	f := p.Filename
+	if i := strings.LastIndex(f, "/"); i >= 0 {
+		f = f[i+1:]
+	}
+	return fmt.Sprintf("%s:%d", f, p.Line)
+}
+
+// logStore records the old content of a cell before it is overwritten.
+func (i *interpreter) logStore(addr *value) {
+	if i.logging {
+		i.undo = append(i.undo, undoEntry{addr: addr, old: *addr})
+	}
+}
+
+func (i *interpreter) logMap(m *smap) {
+	if i.logging && m != nil && m.epoch != i.epoch {
+		i.undo = append(i.undo, undoEntry{m: m, keys: append([]value(nil), m.keys...), vals: append([]value(nil), m.vals...)})
+		m.epoch = i.epoch
+	}
+}
+
+func (i *interpreter) rollback() {
+	for k := len(i.undo) - 1; k >= 0; k-- {
+		e := i.undo[k]
+		if e.m != nil {
+			e.m.keys, e.m.vals = e.keys, e.vals
+			e.m.idx = map[value]int{}
+			e.m.nsym = 0
+			for j, kj := range e.m.keys {
+				if fastKey(kj) {
+					e.m.idx[kj] = j
+				} else {
+					e.m.nsym++
+				}
+			}
+			e.m.epoch = 0
+			continue
+		}
+		*e.addr = e.old
+	}
+	i.undo = i.undo[:0]
+}
+
+// theInterp is the single interpreter of this process.
+var theInterp *interpreter
 
 // visitInstr interprets a single ssa.Instruction within the activation
 // record frame.  It returns a continuation value indicating where to
@@ -223,7 +252,11 @@ func visitInstr(fr *frame, instr ssa.Instruction) continuation {
 		fr.env[instr] = fr.get(instr.Tuple).(tuple)[instr.Index]
 
 	case *ssa.Slice:
-		fr.env[instr] = slice(fr.get(instr.X), fr.get(instr.Low), fr.get(instr.High), fr.get(instr.Max))
+		x := fr.get(instr.X)
+		if px, ok := x.(*value); ok && px == nil {
+			panic(runtimeError("invalid memory address or nil pointer dereference"))
+		}
+		fr.env[instr] = slice(x, fr.get(instr.Low), fr.get(instr.High), fr.get(instr.Max))
 
 	case *ssa.Return:
 		switch len(instr.Results) {
@@ -247,14 +280,25 @@ func visitInstr(fr *frame, instr ssa.Instruction) continuation {
 		panic(targetPanic{fr.get(instr.X)})
 
 	case *ssa.Send:
-		fr.get(instr.Chan).(chan value) <- fr.get(instr.X)
+		chanSend(fr.get(instr.Chan).(*mchan), fr.get(instr.X), fr.site(instr.Pos()))
 
 	case *ssa.Store:
-		store(typeparams.MustDeref(instr.Addr.Type()), fr.get(instr.Addr).(*value), fr.get(instr.Val))
+		addr := fr.get(instr.Addr)
+		switch a := addr.(type) {
+		case *value:
+			if a == nil {
+				panic(runtimeError("invalid memory address or nil pointer dereference"))
+			}
+			store(mustDeref(instr.Addr.Type()), a, fr.get(instr.Val))
+		case symAddr:
+			a.store(fr.get(instr.Val))
+		default:
+			panic(fmt.Sprintf("store through %T", addr))
+		}
 
 	case *ssa.If:
 		succ := 1
-		if fr.get(instr.Cond).(bool) {
+		if truth(fr.get(instr.Cond)) {
 			succ = 0
 		}
 		fr.prevBlock, fr.block = fr.block, fr.block.Succs[succ]
@@ -279,14 +323,25 @@ func visitInstr(fr *frame, instr ssa.Instruction) continuation {
 
 	case *ssa.Go:
 		fn, args := prepareCall(fr, &instr.Call)
-		atomic.AddInt32(&fr.i.goroutines, 1)
-		go func() {
-			call(fr.i, nil, instr.Pos(), fn, args)
-			atomic.AddInt32(&fr.i.goroutines, -1)
-		}()
+		i := fr.i
+		pos := instr.Pos()
+		if cur == nil || cur.sched == nil {
+			panic(abortPath{"go statement outside a scheduled path"})
+		}
+		name := fr.site(pos)
+		cur.sched.spawn(name, func() {
+			runGoroutineBody(i, pos, fn, args)
+		})
 
 	case *ssa.MakeChan:
-		fr.env[instr] = make(chan value, asInt64(fr.get(instr.Size)))
+		if cur == nil || cur.sched == nil {
+			// channels created during package init: not scheduled, plain object
+			fr.env[instr] = &mchan{id: -1, cap: int(asInt64(fr.get(instr.Size))), elem: instr.Type().Underlying().(*types.Chan).Elem()}
+		} else {
+			c := cur.sched.newChan(int(asInt64(fr.get(instr.Size))), instr.Type().Underlying().(*types.Chan).Elem())
+			c.label = fr.site(instr.Pos())
+			fr.env[instr] = c
+		}
 
 	case *ssa.Alloc:
 		var addr *value
@@ -298,25 +353,32 @@ func visitInstr(fr *frame, instr ssa.Instruction) continuation {
 			// local
 			addr = fr.env[instr].(*value)
 		}
-		*addr = zero(typeparams.MustDeref(instr.Type()))
+		*addr = zero(mustDeref(instr.Type()))
 
 	case *ssa.MakeSlice:
-		slice := make([]value, asInt64(fr.get(instr.Cap)))
+		n := asInt64(fr.get(instr.Len))
+		c := asInt64(fr.get(instr.Cap))
+		if n < 0 || n > 1<<24 {
+			panic(runtimeError("makeslice: len out of range"))
+		}
+		if c < n || c > 1<<24 {
+			panic(runtimeError("makeslice: cap out of range"))
+		}
+		slice := make([]value, c)
 		tElt := instr.Type().Underlying().(*types.Slice).Elem()
 		for i := range slice {
 			slice[i] = zero(tElt)
 		}
-		fr.env[instr] = slice[:asInt64(fr.get(instr.Len))]
+		fr.env[instr] = slice[:n]
 
 	case *ssa.MakeMap:
 		var reserve int64
 		if instr.Reserve != nil {
 			reserve = asInt64(fr.get(instr.Reserve))
 		}
-		if !fitsInt(reserve, fr.i.sizes) {
-			panic(fmt.Sprintf("ssa.MakeMap.Reserve value %d does not fit in int", reserve))
-		}
-		fr.env[instr] = makeMap(instr.Type().Underlying().(*types.Map).Key(), reserve)
+		m := makeMap(instr.Type().Underlying().(*types.Map).Key(), reserve).(*smap)
+		m.epoch = fr.i.epoch
+		fr.env[instr] = m
 
 	case *ssa.Range:
 		fr.env[instr] = rangeIter(fr.get(instr.X), instr.X.Type())
@@ -325,7 +387,19 @@ func visitInstr(fr *frame, instr ssa.Instruction) continuation {
 		fr.env[instr] = fr.get(instr.Iter).(iter).next()
 
 	case *ssa.FieldAddr:
-		fr.env[instr] = &(*fr.get(instr.X).(*value)).(structure)[instr.Field]
+		x := fr.get(instr.X)
+		px, ok := x.(*value)
+		if !ok {
+			if sa, ok := x.(symAddr); ok {
+				px = sa.concrete()
+			} else {
+				panic(fmt.Sprintf("FieldAddr on %T", x))
+			}
+		}
+		if px == nil {
+			panic(runtimeError("invalid memory address or nil pointer dereference"))
+		}
+		fr.env[instr] = &(*px).(structure)[instr.Field]
 
 	case *ssa.Field:
 		fr.env[instr] = fr.get(instr.X).(structure)[instr.Field]
@@ -333,14 +407,29 @@ func visitInstr(fr *frame, instr ssa.Instruction) continuation {
 	case *ssa.IndexAddr:
 		x := fr.get(instr.X)
 		idx := fr.get(instr.Index)
+		var backing []value
 		switch x := x.(type) {
 		case []value:
-			fr.env[instr] = &x[asInt64(idx)]
+			backing = x
 		case *value: // *array
-			fr.env[instr] = &(*x).(array)[asInt64(idx)]
+			if x == nil {
+				panic(runtimeError("invalid memory address or nil pointer dereference"))
+			}
+			backing = (*x).(array)
 		default:
 			panic(fmt.Sprintf("unexpected x type in IndexAddr: %T", x))
 		}
+		if si, ok := idx.(sym); ok {
+			if sa, ok := makeSymAddr(backing, si); ok {
+				fr.env[instr] = sa
+				break
+			}
+		}
+		i := asInt64(idx)
+		if i < 0 || i >= int64(len(backing)) {
+			panic(runtimeError(fmt.Sprintf("index out of range [%d] with length %d", i, len(backing))))
+		}
+		fr.env[instr] = &backing[i]
 
 	case *ssa.Index:
 		x := fr.get(instr.X)
@@ -348,9 +437,41 @@ func visitInstr(fr *frame, instr ssa.Instruction) continuation {
 
 		switch x := x.(type) {
 		case array:
-			fr.env[instr] = x[asInt64(idx)]
+			if si, ok := idx.(sym); ok {
+				if sa, ok := makeSymAddr(x, si); ok {
+					fr.env[instr] = sa.load()
+					break
+				}
+			}
+			i := asInt64(idx)
+			if i < 0 || i >= int64(len(x)) {
+				panic(runtimeError(fmt.Sprintf("index out of range [%d] with length %d", i, len(x))))
+			}
+			fr.env[instr] = x[i]
 		case string:
-			fr.env[instr] = x[asInt64(idx)]
+			if si, ok := idx.(sym); ok {
+				if sa, ok := makeSymAddr(strBytes(x), si); ok {
+					fr.env[instr] = sa.load()
+					break
+				}
+			}
+			i := asInt64(idx)
+			if i < 0 || i >= int64(len(x)) {
+				panic(runtimeError(fmt.Sprintf("index out of range [%d] with length %d", i, len(x))))
+			}
+			fr.env[instr] = x[i]
+		case symstr:
+			if si, ok := idx.(sym); ok {
+				if sa, ok := makeSymAddr(x.b, si); ok {
+					fr.env[instr] = sa.load()
+					break
+				}
+			}
+			i := asInt64(idx)
+			if i < 0 || i >= int64(len(x.b)) {
+				panic(runtimeError(fmt.Sprintf("index out of range [%d] with length %d", i, len(x.b))))
+			}
+			fr.env[instr] = x.b[i]
 		default:
 			panic(fmt.Sprintf("unexpected x type in Index: %T", x))
 		}
@@ -363,10 +484,12 @@ func visitInstr(fr *frame, instr ssa.Instruction) continuation {
 		key := fr.get(instr.Key)
 		v := fr.get(instr.Value)
 		switch m := m.(type) {
-		case map[value]value:
-			m[key] = v
-		case *hashmap:
-			m.insert(key.(hashable), v)
+		case *smap:
+			if m == nil {
+				panic(runtimeError("assignment to entry in nil map"))
+			}
+			fr.i.logMap(m)
+			m.insert(key, v)
 		default:
 			panic(fmt.Sprintf("illegal map type: %T", m))
 		}
@@ -382,58 +505,14 @@ func visitInstr(fr *frame, instr ssa.Instruction) continuation {
 		fr.env[instr] = &closure{instr.Fn.(*ssa.Function), bindings}
 
 	case *ssa.Phi:
-		log.Fatal("unreachable") // phis are processed at block entry
+		panic("unreachable") // phis are processed at block entry
 
 	case *ssa.Select:
-		var cases []reflect.SelectCase
-		if !instr.Blocking {
-			cases = append(cases, reflect.SelectCase{
-				Dir: reflect.SelectDefault,
-			})
-		}
-		for _, state := range instr.States {
-			var dir reflect.SelectDir
-			if state.Dir == types.RecvOnly {
-				dir = reflect.SelectRecv
-			} else {
-				dir = reflect.SelectSend
-			}
-			var send reflect.Value
-			if state.Send != nil {
-				send = reflect.ValueOf(fr.get(state.Send))
-			}
-			cases = append(cases, reflect.SelectCase{
-				Dir:  dir,
-				Chan: reflect.ValueOf(fr.get(state.Chan)),
-				Send: send,
-			})
-		}
-		chosen, recv, recvOk := reflect.Select(cases)
-		if !instr.Blocking {
-			chosen-- // default case should have index -1.
-		}
-		r := tuple{chosen, recvOk}
-		for i, st := range instr.States {
-			if st.Dir == types.RecvOnly {
-				var v value
-				if i == chosen && recvOk {
-					// No need to copy since send makes an unaliased copy.
-					v = recv.Interface().(value)
-				} else {
-					v = zero(st.Chan.Type().Underlying().(*types.Chan).Elem())
-				}
-				r = append(r, v)
-			}
-		}
-		fr.env[instr] = r
+		fr.env[instr] = doSelect(fr, instr)
 
 	default:
 		panic(fmt.Sprintf("unexpected instruction: %T", instr))
 	}
-
-	// if val, ok := instr.(ssa.Value); ok {
-	// 	fmt.Println(toString(fr.env[val])) // debugging
-	// }
 
 	return kNext
 }
@@ -450,9 +529,11 @@ func prepareCall(fr *frame, call *ssa.CallCommon) (fn value, args []value) {
 		// Interface method invocation.
 		recv := v.(iface)
 		if recv.t == nil {
-			panic("method invoked on nil interface")
+			panic(runtimeError("invalid memory address or nil pointer dereference (method invoked on nil interface)"))
 		}
-		if f := lookupMethod(fr.i, recv.t, call.Method); f == nil {
+		if nm, ok := nativeMethod(recv, call.Method); ok {
+			fn = nm
+		} else if f := lookupMethod(fr.i, recv.t, call.Method); f == nil {
 			// Unreachable in well-typed programs.
 			panic(fmt.Sprintf("method set for dynamic type %v does not contain %s", recv.t, call.Method))
 		} else {
@@ -466,6 +547,17 @@ func prepareCall(fr *frame, call *ssa.CallCommon) (fn value, args []value) {
 	return
 }
 
+// nativeFn is an engine-implemented function value.
+type nativeFn struct {
+	name string
+	fn   func(fr *frame, args []value) value
+}
+
+func isNativeFunc(v value) bool {
+	_, ok := v.(*nativeFn)
+	return ok
+}
+
 // call interprets a call to a function (function, builtin or closure)
 // fn with arguments args, returning its result.
 // callpos is the position of the callsite.
@@ -473,13 +565,15 @@ func call(i *interpreter, caller *frame, callpos token.Pos, fn value, args []val
 	switch fn := fn.(type) {
 	case *ssa.Function:
 		if fn == nil {
-			panic("call of nil function") // nil of func type
+			panic(runtimeError("invalid memory address or nil pointer dereference (call of nil func)")) // nil of func type
 		}
 		return callSSA(i, caller, callpos, fn, args, nil)
 	case *closure:
 		return callSSA(i, caller, callpos, fn.Fn, args, fn.Env)
 	case *ssa.Builtin:
 		return callBuiltin(caller, callpos, fn, args)
+	case *nativeFn:
+		return fn.fn(caller, args)
 	}
 	panic(fmt.Sprintf("cannot call %T", fn))
 }
@@ -491,13 +585,14 @@ func loc(fset *token.FileSet, pos token.Pos) string {
 	return " at " + fset.Position(pos).String()
 }
 
+const maxCallDepth = 400
+
 // callSSA interprets a call to function fn with arguments args,
 // and lexical environment env, returning its result.
 // callpos is the position of the callsite.
 func callSSA(i *interpreter, caller *frame, callpos token.Pos, fn *ssa.Function, args []value, env []value) value {
 	if i.mode&EnableTracing != 0 {
 		fset := fn.Prog.Fset
-		// TODO(adonovan): fix: loc() lies for external functions.
 		fmt.Fprintf(os.Stderr, "Entering %s%s.\n", fn, loc(fset, fn.Pos()))
 		suffix := ""
 		if caller != nil {
@@ -510,29 +605,55 @@ func callSSA(i *interpreter, caller *frame, callpos token.Pos, fn *ssa.Function,
 		caller: caller, // for panic/recover
 		fn:     fn,
 	}
+	if caller != nil {
+		fr.depth = caller.depth + 1
+		if fr.depth > maxCallDepth {
+			if cur != nil {
+				cur.end("unwind", fmt.Sprintf("call depth bound %d exceeded in %s", maxCallDepth, fn))
+			}
+			panic("call depth exceeded")
+		}
+	}
 	if fn.Parent() == nil {
 		name := fn.String()
-		if ext := externals[name]; ext != nil {
+		if cur != nil {
+			if stub := i.stubs[name]; stub != nil && stub != fn && !insideStub(caller, stub) {
+				return callSSA(i, caller, callpos, stub, args, nil)
+			}
+		}
+		if ext := findExternal(name, fn); ext != nil {
 			if i.mode&EnableTracing != 0 {
 				fmt.Fprintln(os.Stderr, "\t(external)")
 			}
 			return ext(fr, args)
 		}
 		if fn.Blocks == nil {
+			if fn.Synthetic != "" && fn.Name() == "init" {
+				return nil // initialiser of a package loaded from export data
+			}
+			if cur != nil {
+				panic(abortPath{"no code for function: " + name})
+			}
 			panic("no code for function: " + name)
 		}
+	}
+	if fn.Blocks == nil {
+		panic(abortPath{"no code for function: " + fn.String()})
 	}
 
 	// generic function body?
 	if fn.TypeParams().Len() > 0 && len(fn.TypeArgs()) == 0 {
 		panic("interp requires ssa.BuilderMode to include InstantiateGenerics to execute generics")
 	}
+	if cur != nil {
+		cur.funcs[fn.String()]++
+	}
 
 	fr.env = make(map[ssa.Value]value)
 	fr.block = fn.Blocks[0]
 	fr.locals = make([]value, len(fn.Locals))
 	for i, l := range fn.Locals {
-		fr.locals[i] = zero(typeparams.MustDeref(l.Type()))
+		fr.locals[i] = zero(mustDeref(l.Type()))
 		fr.env[l] = &fr.locals[i]
 	}
 	for i, p := range fn.Params {
@@ -551,21 +672,19 @@ func callSSA(i *interpreter, caller *frame, callpos token.Pos, fn *ssa.Function,
 	return fr.result
 }
 
+// insideStub reports whether the call chain is already inside stub (a stub may call the real
+// function it replaces).
+func insideStub(fr *frame, stub *ssa.Function) bool {
+	for f := fr; f != nil; f = f.caller {
+		if f.fn == stub {
+			return true
+		}
+	}
+	return false
+}
+
 // runFrame executes SSA instructions starting at fr.block and
 // continuing until a return, a panic, or a recovered panic.
-//
-// After a panic, runFrame panics.
-//
-// After a normal return, fr.result contains the result of the call
-// and fr.block is nil.
-//
-// A recovered panic in a function without named return parameters
-// (NRPs) becomes a normal return of the zero value of the function's
-// result type.
-//
-// After a recovered panic in a function with NRPs, fr.result is
-// undefined and fr.block contains the block at which to resume
-// control.
 func runFrame(fr *frame) {
 	defer func() {
 		if fr.block == nil {
@@ -574,8 +693,12 @@ func runFrame(fr *frame) {
 		if fr.i.mode&DisableRecover != 0 {
 			return // let interpreter crash
 		}
+		r := recover()
+		if enginePanic(r) {
+			panic(r)
+		}
 		fr.panicking = true
-		fr.panic = recover()
+		fr.panic = r
 		if fr.i.mode&EnableTracing != 0 {
 			fmt.Fprintf(os.Stderr, "Panicking: %T %v.\n", fr.panic, fr.panic)
 		}
@@ -587,8 +710,23 @@ func runFrame(fr *frame) {
 		if fr.i.mode&EnableTracing != 0 {
 			fmt.Fprintf(os.Stderr, ".%s:\n", fr.block)
 		}
+		if cur != nil && cur.loopCap > 0 && len(fr.block.Preds) > 1 {
+			if fr.loopCount == nil {
+				fr.loopCount = map[*ssa.BasicBlock]int{}
+			}
+			fr.loopCount[fr.block]++
+			if fr.loopCount[fr.block] > cur.loopCap {
+				cur.end("unwind", fmt.Sprintf("loop bound %d exceeded in %s block %d", cur.loopCap, fr.fn, fr.block.Index))
+			}
+		}
 
 		nonPhis := executePhis(fr)
+		if cur != nil {
+			cur.steps += int64(len(nonPhis))
+			if cur.steps > cur.maxSteps {
+				cur.end("unwind", fmt.Sprintf("instruction budget %d exceeded", cur.maxSteps))
+			}
+		}
 		for _, instr := range nonPhis {
 			if fr.i.mode&EnableTracing != 0 {
 				if v, ok := instr.(ssa.Value); ok {
@@ -620,17 +758,10 @@ func executePhis(fr *frame) []ssa.Instruction {
 	nonPhis := fr.block.Instrs[firstNonPhi:]
 	if firstNonPhi > 0 {
 		phis := fr.block.Instrs[:firstNonPhi]
-		// Execute parallel assignment of phis.
-		//
-		// See "the swap problem" in Briggs et al's "Practical Improvements
-		// to the Construction and Destruction of SSA Form" for discussion.
 		predIndex := slices.Index(fr.block.Preds, fr.prevBlock)
 		fr.phitemps = fr.phitemps[:0]
 		for _, phi := range phis {
 			phi := phi.(*ssa.Phi)
-			if fr.i.mode&EnableTracing != 0 {
-				fmt.Fprintln(os.Stderr, "\t", phi.Name(), "=", phi)
-			}
 			fr.phitemps = append(fr.phitemps, fr.get(phi.Edges[predIndex]))
 		}
 		for i, phi := range phis {
@@ -646,14 +777,13 @@ func doRecover(caller *frame) value {
 	// function (two levels beneath the panicking function) to
 	// have any effect.  Thus we ignore both "defer recover()" and
 	// "defer f() -> g() -> recover()".
-	if caller.i.mode&DisableRecover == 0 &&
-		caller != nil && !caller.panicking &&
+	if caller != nil && caller.i.mode&DisableRecover == 0 &&
+		!caller.panicking &&
 		caller.caller != nil && caller.caller.panicking {
 		caller.caller.panicking = false
 		p := caller.caller.panic
 		caller.caller.panic = nil
 
-		// TODO(adonovan): support runtime.Goexit.
 		switch p := p.(type) {
 		case targetPanic:
 			// The target program explicitly called panic().
@@ -671,85 +801,30 @@ func doRecover(caller *frame) value {
 	return iface{}
 }
 
-// Interpret interprets the Go program whose main package is mainpkg.
-// mode specifies various interpreter options.  filename and args are
-// the initial values of os.Args for the target program.  sizes is the
-// effective type-sizing function for this program.
-//
-// Interpret returns the exit code of the program: 2 for panic (like
-// gc does), or the argument to os.Exit for normal termination.
-//
-// The SSA program must include the "runtime" package.
-//
-// Type parameterized functions must have been built with
-// InstantiateGenerics in the ssa.BuilderMode to be interpreted.
-func Interpret(mainpkg *ssa.Package, mode Mode, sizes types.Sizes, filename string, args []string) (exitCode int) {
-	i := &interpreter{
-		prog:       mainpkg.Prog,
-		globals:    make(map[*ssa.Global]*value),
-		mode:       mode,
-		sizes:      sizes,
-		goroutines: 1,
-	}
-	runtimePkg := i.prog.ImportedPackage("runtime")
-	if runtimePkg == nil {
-		panic("ssa.Program doesn't include runtime package")
-	}
-	i.runtimeErrorString = runtimePkg.Type("errorString").Object().Type()
-
-	initReflect(i)
-
-	i.osArgs = append(i.osArgs, filename)
-	for _, arg := range args {
-		i.osArgs = append(i.osArgs, arg)
-	}
-
-	for _, pkg := range i.prog.AllPackages() {
-		// Initialize global storage.
-		for _, m := range pkg.Members {
-			switch v := m.(type) {
-			case *ssa.Global:
-				cell := zero(typeparams.MustDeref(v.Type()))
-				i.globals[v] = &cell
+// panicString renders a panic value for reports.
+func panicString(p interface{}) string {
+	switch p := p.(type) {
+	case targetPanic:
+		if it, ok := p.v.(iface); ok {
+			if s, ok := it.v.(string); ok {
+				return s
+			}
+			if it.t != nil {
+				if msg, ok := errorMessage(it); ok {
+					return it.t.String() + ": " + msg
+				}
+				return "panic value of type " + it.t.String()
 			}
 		}
+		return toString(p.v)
+	case runtime.Error:
+		return p.Error()
+	case runtimeError:
+		return p.Error()
+	case string:
+		return p
+	case error:
+		return p.Error()
 	}
-
-	// Top-level error handler.
-	exitCode = 2
-	defer func() {
-		if exitCode != 2 || i.mode&DisableRecover != 0 {
-			return
-		}
-		switch p := recover().(type) {
-		case exitPanic:
-			exitCode = int(p)
-			return
-		case targetPanic:
-			fmt.Fprintln(os.Stderr, "panic:", toString(p.v))
-		case runtime.Error:
-			fmt.Fprintln(os.Stderr, "panic:", p.Error())
-		case string:
-			fmt.Fprintln(os.Stderr, "panic:", p)
-		default:
-			fmt.Fprintf(os.Stderr, "panic: unexpected type: %T: %v\n", p, p)
-		}
-
-		// TODO(adonovan): dump panicking interpreter goroutine?
-		// buf := make([]byte, 0x10000)
-		// runtime.Stack(buf, false)
-		// fmt.Fprintln(os.Stderr, string(buf))
-		// (Or dump panicking target goroutine?)
-	}()
-
-	// Run!
-	call(i, nil, token.NoPos, mainpkg.Func("init"), nil)
-	if mainFn := mainpkg.Func("main"); mainFn != nil {
-		call(i, nil, token.NoPos, mainFn, nil)
-		exitCode = 0
-	} else {
-		fmt.Fprintln(os.Stderr, "No main function.")
-		exitCode = 1
-	}
-	return
+	return fmt.Sprintf("%T %v", p, p)
 }
